@@ -544,6 +544,7 @@ func randSeq(r *vh.Rand, maxOps int) []Op {
 	var known [][]string // index paths (with target) registered so far
 	var subKnown [][]string
 	handles := 0
+	nextSub := 3
 	for i := 0; i < n; i++ {
 		switch r.Pick(16, 10, 10, 14, 6, 16, 3) {
 		case 0:
@@ -560,8 +561,12 @@ func randSeq(r *vh.Rand, maxOps int) []Op {
 			known = append(known, q)
 			handles++
 		case 1:
-			ops = append(ops, randSub(r, 3+r.Intn(3), &subKnown))
-			handles++
+			// one subscription list per client (a fresh matchClient per RPC)
+			if nextSub < maxClients {
+				ops = append(ops, randSub(r, nextSub, &subKnown))
+				nextSub++
+				handles++
+			}
 		case 2:
 			if handles > 0 {
 				ops = append(ops, Op{K: "rem", H: r.Intn(handles)})
@@ -734,7 +739,7 @@ func main() {
 	flag.Set("logtostderr", "true")
 	flag.Set("stderrthreshold", "FATAL")
 	o := vh.ParseFlags()
-	meta := vh.NewMeta("corpus cases; pairs-1: for every query path q of length 0..4 over {a,b,*} one case registering q and matching EVERY update path of length 0..4 over {a,b,*} against it (Update and UpdateOnce), then removal and the same updates again; pairs-2: two queries (same or different client) of length 0..3 against every update path of length 0..3 (quick: a seeded slice; thorough: all); sub: seeded subscribe-level sequences (1..3 subscription lists with 1..3 entries incl. entries without path, origins, keyed elements, deprecated element paths; notifications with 1..3 updates/deletes through Server.Update before and after removal); seq: seeded sequences of 4..30 operations mixing AddQuery / addSubscription / removal (repeated) / Update / UpdateOnce / Server.Update / trie size by 6 clients. distinct = distinct operation sequence; non-trivial = at least one registration and at least one update that was offered to some client")
+	meta := vh.NewMeta("corpus cases; pairs-1: for every query path q of length 0..4 over {a,b,*} one case registering q and matching EVERY update path of length 0..4 over {a,b,*} against it (Update and UpdateOnce), then removal and the same updates again; pairs-2: two queries (same or different client) of length 0..3 against every update path of length 0..3 (quick: a seeded slice; thorough: all); sub: seeded subscribe-level sequences (1..3 subscription lists with 1..3 entries incl. entries without path, origins, keyed elements, deprecated element paths; notifications with 1..3 updates/deletes through Server.Update before and after removal); seq: seeded sequences of 4..30 operations mixing AddQuery (clients 0..2) / addSubscription (clients 3..7, one list each) / removal (repeated) / Update / UpdateOnce / Server.Update / trie size. distinct = distinct operation sequence; non-trivial = at least one registration and at least one update that was offered to some client")
 	e := &emitter{dir: o.Out, cf: vh.NewCaseFile(), meta: meta, limit: 1500}
 
 	if o.Replay != "" {
